@@ -52,7 +52,7 @@ func (e *c01Env) counts() (held, assigned int) {
 
 func TestVerifC01Seq(t *testing.T) {
 	defer c01PinGates()()
-	kit.Run(t, kit.Config{Property: "C01", Unit: "seq", Quick: 400, Thorough: 24000,
+	kit.Run(t, kit.Config{Property: "C01", Unit: "seq", Quick: 400, Thorough: 18000,
 		Rule: "histories of 40-200 operations on a real GroupQuotaManager: tree of 3-7 groups (depth <= 3, one fixed dimension set cpu,memory[+1 extended]), 4-12 pods that also request an undeclared dimension; pod add/update/label change/delete/reserve/unreserve/migrate/duplicate and unknown events 75%, quota set-max/min/weight/lent/is-parent/re-parent/delete/re-create/reset 20%, nodes 5%; oracle after every operation, fresh-manager and ResetQuota differentials every 25 operations; distinct = (tree shape, operation kind, #pods held, #pods assigned); non-trivial = case with >= 1 re-parent or delete of a group with non-zero subtree totals"},
 		func(c *kit.Case) {
 			r := c.R
@@ -144,7 +144,7 @@ func TestVerifC01Seq(t *testing.T) {
 
 func TestVerifC01Conc(t *testing.T) {
 	defer c01PinGates()()
-	kit.Run(t, kit.Config{Property: "C01", Unit: "conc", Quick: 200, Thorough: 9000,
+	kit.Run(t, kit.Config{Property: "C01", Unit: "conc", Quick: 200, Thorough: 7000,
 		Rule: "3-6 rounds per case on a real GroupQuotaManager under the race detector: 4-8 worker goroutines issue 6-14 pod operations each on disjoint pods (8-16 pods), one goroutine issues 2-6 quota mutations (set-max/min/weight/lent, re-parent, delete of pre-selected groups, create, reset, nodes), one goroutine reads (RefreshRuntime, summaries, snapshot); yields between operations; oracle (recompute from scratch) at each quiescent point, fresh-manager and ResetQuota differentials at the end; distinct = (tree shape, #workers, #pods held, #pods assigned, quota operation kinds of the round); non-trivial = case with >= 1 re-parent or delete of a group with non-zero subtree totals issued concurrently with pod events"},
 		func(c *kit.Case) {
 			r := c.R
